@@ -105,12 +105,15 @@ func (df *DataFile) WriteHintRecord(key []byte, hintPos []byte, pos *DataPos) er
 	return err
 }
 
-func (df *DataFile) WriteMergeFinRecord(id FileID) error {
+// WriteMergeFinRecord 写入 merge 完成标识
+// id 为未参与 merge 的最小数据文件 id, count 为重写得到的数据文件个数
+func (df *DataFile) WriteMergeFinRecord(id FileID, count uint32) error {
 	if df.closed {
 		return ErrClosed
 	}
-	data := make([]byte, 4)
+	data := make([]byte, 8)
 	binary.LittleEndian.PutUint32(data, id)
+	binary.LittleEndian.PutUint32(data[4:], count)
 	_, err := df.ReadWriter.Write(data)
 	return err
 }
@@ -275,18 +278,19 @@ func (df *DataFile) ReadRecordValue(logRecordPos *DataPos) ([]byte, error) {
 	return value, nil
 }
 
-func (df *DataFile) ReadMergeFinRecord() FileID {
+// ReadMergeFinRecord 读取 merge 完成标识, 返回未参与 merge 的最小数据文件 id 和重写得到的数据文件个数
+// 读取失败时返回的 id 为 0
+func (df *DataFile) ReadMergeFinRecord() (FileID, uint32) {
 	if df.closed {
-		return 0
+		return 0, 0
 	}
 	buf := bytebufferpool.Get()
 	defer bytebufferpool.Put(buf)
 	err := df.readToBuf(0, 0, buf)
-	if err != nil {
-		return 0
+	if err != nil || buf.Len() != 8 {
+		return 0, 0
 	}
-	value := binary.LittleEndian.Uint32(buf.Bytes())
-	return value
+	return binary.LittleEndian.Uint32(buf.Bytes()), binary.LittleEndian.Uint32(buf.Bytes()[4:])
 }
 
 func (df *DataFile) readToBuf(blockID uint32, offset uint32, buf *bytebufferpool.ByteBuffer) error {
